@@ -770,14 +770,38 @@ func aolCheckCounters(s *explore.State, m *aolModel) {
 			s.Fail("owner-count", fmt.Sprintf("owner-count:len%d", len(kv.K)-2), "owner %x total_topics=%d but %d topics exist", kv.K[2:], o.TotalTopics, ownersWant[string(kv.K[2:])])
 		}
 	}
+	// the records really stored (raw store), independent of the model's own bookkeeping of acknowledged appends
+	storedRec := map[string]bool{}
+	for _, kv := range s.W.DumpPrefix("aol", []byte{0x03}) {
+		storedRec[string(kv.K)] = true
+	}
+	reportedRec, allTopicsAnswered := 0, true
+	defer func() {
+		if allTopicsAnswered && reportedRec != len(storedRec) {
+			s.Fail("topic-count", "topic-count:records-stored-total", "the topics report %d records in all, the record store holds %d", reportedRec, len(storedRec))
+		}
+	}()
 	// per-topic counters
 	for _, tk := range sortedKeys(m.Topics) {
 		t := m.Topics[tk]
 		ownerBech := sdk.AccAddress(t.Owner).String()
 		res, err := k.Topic(ctx, &aoltypes.QueryTopicRequest{OwnerAddress: ownerBech, TopicName: t.Name})
 		if err != nil {
+			allTopicsAnswered = false
 			s.Fail("topic-count", "topic-count:query", "Topic(%x,%s): %v", t.Owner, t.Name, err)
 			continue
+		}
+		reportedRec += int(res.Topic.TotalRecords)
+		if res.Topic.TotalRecords <= 4096 {
+			for n := uint64(0); n < res.Topic.TotalRecords; n++ {
+				if !storedRec[string(recKey([]byte(t.Owner), t.Name, n))] {
+					s.Fail("topic-count", "topic-count:records-stored", "topic (%x,%s) total_records=%d but no record is stored at offset %d", t.Owner, t.Name, res.Topic.TotalRecords, n)
+					break
+				}
+			}
+			if storedRec[string(recKey([]byte(t.Owner), t.Name, res.Topic.TotalRecords))] {
+				s.Fail("topic-count", "topic-count:records-stored", "topic (%x,%s) total_records=%d but a record is stored at that offset", t.Owner, t.Name, res.Topic.TotalRecords)
+			}
 		}
 		if int(res.Topic.TotalWriters) != len(t.Writers) {
 			s.Fail("topic-count", "topic-count:writers", "topic (%x,%s) total_writers=%d, %d writers listed", t.Owner, t.Name, res.Topic.TotalWriters, len(t.Writers))
